@@ -406,6 +406,11 @@ pub fn scaffold() -> Vec<Def> {
         Def::Fn("fact", vec!["kn"], vec![], E::If(Box::new(bin("<", v("kn"), n(1.0))), Box::new(n(1.0)), Box::new(bin("*", v("kn"), call("fact", vec![bin("-", v("kn"), n(1.0))])))), ""),
         Def::Fn("fib", vec!["kn"], vec![], E::If(Box::new(bin("<", v("kn"), n(2.0))), Box::new(v("kn")), Box::new(bin("+", call("fib", vec![bin("-", v("kn"), n(1.0))]), call("fib", vec![bin("-", v("kn"), n(2.0))])))), ""),
         Def::Fn("ap", vec!["fnv", "uv"], vec![], E::CallVal(Box::new(v("fnv")), vec![v("uv")]), "fn ap(fnv: Fn[(Scalar) -> Scalar], uv: Scalar) -> Scalar = fnv(uv)"),
+        // function values of two-parameter functions: a user function, two built-ins, and a caller
+        // that applies its first argument to the other two (argument order is observable in all three)
+        Def::Let("sv2", E::FnRef("sub2")),
+        Def::Let("cv", E::FnRef("cons")),
+        Def::Fn("ap2", vec!["fn2", "ua", "ub"], vec![], E::CallVal(Box::new(v("fn2")), vec![v("ua"), v("ub")]), ""),
         Def::Let("pv", E::Struct(vec![("b", n(5.0)), ("a", n(4.0))])),
         Def::Let("xs", E::List(vec![n(7.0), n(8.0), n(9.0)])),
         Def::Let("yv", n(50.0)),
@@ -541,6 +546,7 @@ impl Gen {
                                     out.push(bin(op, a.clone(), b.clone()));
                                 }
                                 out.push(call("sub2", vec![a.clone(), b.clone()]));
+                                out.push(E::CallVal(Box::new(v("sv2")), vec![a.clone(), b.clone()]));
                             }
                         }
                         let fa = self.exact(Ty::Fun, ls);
@@ -613,6 +619,8 @@ impl Gen {
                             for l in lb.iter() {
                                 out.push(call("cons", vec![a.clone(), l.clone()]));
                                 out.push(call("cons_end", vec![a.clone(), l.clone()]));
+                                out.push(E::CallVal(Box::new(v("cv")), vec![a.clone(), l.clone()]));
+                                out.push(call("ap2", vec![E::FnRef("cons_end"), a.clone(), l.clone()]));
                             }
                         }
                         let fa = self.exact(Ty::Fun, ls);
@@ -917,7 +925,7 @@ pub fn check(rep: &mut Report) {
     rep.set("agree", json!(agree));
     rep.set("unspecified_reference_raises", json!(unspec));
     rep.set("scaffold", json!(defs.iter().map(render_def).collect::<Vec<_>>()));
-    rep.rule = "every well-typed expression of size <= N (numbers, booleans, lists, strings, structs, function values) over a scaffold session that forces shadowing, capture before redefinition of variables and functions, parameter/where-local shadowing, recursion, two-parameter calls, function values and |>, struct literals in both field orders, list construction and string interpolation; each evaluated by the real pipeline in a clone of the scaffold session and by an independent big-step evaluator (lexical scoping, call by value, lazy conditionals, IEEE arithmetic); non-trivial = expressions on which both sides produced a value and were compared".into();
+    rep.rule = "every well-typed expression of size <= N (numbers, booleans, lists, strings, structs, function values) over a scaffold session that forces shadowing, capture before redefinition of variables and functions, parameter/where-local shadowing, recursion, two-parameter calls, function values (one- and two-parameter, user-defined and built-in) and |>, struct literals in both field orders, list construction and string interpolation; each evaluated by the real pipeline in a clone of the scaffold session and by an independent big-step evaluator (lexical scoping, call by value, lazy conditionals, IEEE arithmetic); non-trivial = expressions on which both sides produced a value and were compared".into();
     rep.assumptions = vec![
         "reference semantics: every definition creates a new immutable binding; functions capture the environment of their definition (pinned by the suite's own overwrite tests)".into(),
         "expressions on which the reference raises (head/tail of an empty list) are unspecified; && and || are evaluated strictly by both sides".into(),
